@@ -507,6 +507,32 @@ def g_c12_reflection(repo):
             return bytes(e)
         samples.append(frame_chain('icmp-echo', R.eth(R.MAC, R.PEER, 0x0800, R.ip4(peer4, me4, 1, R.icmp(8, 0, b'\0\1\0\1abcdefgh'))), readdress))
         samples.append(frame_chain('arp', R.eth('ff:ff:ff:ff:ff:ff', R.PEER, 0x0806, R.arp(1, R.PEER, peer4, '00:00:00:00:00:00', me4)), readdress))
+        # variants: the bytes a responder copies from the request into the head of its reply (DNS ID, RPC XID, STUN
+        # transaction id) are chosen to look like the leading bytes of the other protocols' signatures, which is where a
+        # reply could be taken for a request of another protocol; here only the bound (at most two replies) is asked
+        heads = [b'\x00\x01', b'\x00\x00', b'GE', b'SS', b'Gh', b'\x00\x01\x00\x00', b'\x00\x00\x00\x54', b'PO', b'\x01\x01', b'\x81\x80']
+        variants = []
+        for h in heads:
+            h2 = (h + b'\x00\x00')[:2]; h4 = (h + b'\x00\x00\x00\x00')[:4]
+            for rd in (0, 1):
+                variants.append(udp_chain('dns', h2 + bytes([rd, 0]) + bytes.fromhex('0001000000000000016100') + b'\0\1\0\1', 53))
+            variants.append(udp_chain('dns', h2 + bytes.fromhex('01000002000000000000') + b'\x01a\0\0\1\0\1' + b'\x02bc\0\0\1\0\1', 5353))
+            variants.append(udp_chain('stun', bytes.fromhex('00010000') + h4 + b'0123456789ab', 3478))
+            variants.append(udp_chain('stun', bytes.fromhex('000100002112a442') + h4 + b'01234567', 40000))
+            variants.append(udp_chain('rpc-udp', h4 + struct.pack('!IIIIIIIII', 0, 2, 100000, 2, 3, 0, 0, 0, 0), 111))
+            variants.append(udp_chain('rpc-udp', h4 + struct.pack('!IIIIIIIII', 0, 2, 100000, 4, 4, 0, 0, 0, 0), 2049))
+            variants.append(tcp_chain('rpc-tcp', _rpc_record(h4 + struct.pack('!IIIIIIIII', 0, 2, 100000, 3, 3, 0, 0, 0, 0)), 111))
+        for v in (b'PUT', b'POST', b'HEAD', b'DELETE', b'CONNECT', b'OPTIONS', b'TRACE', b'PATCH'):
+            variants.append(tcp_chain('http', v + b' / HTTP/1.0\r\nHost: a\r\n\r\n', 8080))
+            variants.append(udp_chain('http', v + b' / HTTP/1.1\n\n', 80))
+        smb2 = bytes.fromhex('00000068fe534d4240000000000000000000000000000000000000000000000000000000000000000000000000000000000000000000000000000000000000000000000024000200010000000000000000000000000000000000000000000000000000000000020210020000')
+        variants.append(tcp_chain('smb2', smb2, 445))
+        worst = {}
+        for name, chain in variants:
+            if len(chain) > len(worst.get(name, [])): worst[name] = chain
+        for name, chain in sorted(worst.items()):
+            out.append((len(chain) <= 2, {'obligation': 'ground/C12/reflection-variants/' + name, 'longest_chain_over_the_variants': len(chain),
+                                          'variants': sum(1 for n_, _ in variants if n_ == name), 'chain_prefixes_hex': chain}))
         for name, chain in samples:
             if name in ('ssh', 'ghost'):
                 # SSH identification strings and Gh0st frames carry no request/reply marking: C12 does not list them; the
